@@ -192,6 +192,7 @@ type World struct {
 	pendingDone      []doneMark
 	chainSID         map[int]string
 	lostReply        map[int]bool
+	seenIdent        map[string]string
 	k8sMode          bool
 	K8s              client.Client
 	k8sRef           map[string]string // secret name -> value as of the last completed reconcile
@@ -530,6 +531,18 @@ func (s *spyStore) call(method, sid string, fn func() error) *SpyEv {
 		_ = fn()
 		ev.Applied = true
 		ev.Err = errors.New("sim: injected store failure (after effect)")
+	case ev.Fault == "redis-down":
+		// the Redis server fails every command for the duration of this store call (memory store: plain error)
+		w.countFault("redis-down")
+		m := penv.redis[w.storeKind(s.filter)]
+		if m == nil {
+			ev.Err = errors.New("sim: injected store failure (before effect)")
+			break
+		}
+		m.SetError("sim: redis is down")
+		ev.Err = fn()
+		m.SetError("")
+		ev.Applied = true
 	case ev.Fault == "crash-before":
 		w.countFault("crash-at-store-call")
 		w.Spy = append(w.Spy, ev)
@@ -702,6 +715,13 @@ func (s *yieldStore) ClearAuthorizationState(ctx context.Context, id string) err
 func (s *yieldStore) RemoveSession(ctx context.Context, id string) error {
 	s.y()
 	return s.SessionStore.RemoveSession(ctx, id)
+}
+
+func (w *World) storeKind(fi int) string {
+	if fi < 0 || fi >= len(w.Filters) {
+		return ""
+	}
+	return w.Filters[fi].Spec.Store
 }
 
 // crashPanic abandons the current check: the process "dies" at this seam call.
